@@ -24,6 +24,8 @@ const (
 	vtMap
 	vtTime
 	vtFunc
+	vtNilSlice
+	vtNilMap
 	vtCount
 )
 
@@ -59,6 +61,10 @@ func vpCondValue() (v interface{}, truthy bool, kind int) {
 		return time.Time{}, true, kind
 	case vtFunc:
 		return func() (int, error) { return 0, nil }, true, kind
+	case vtNilSlice:
+		return []interface{}(nil), true, kind // what the empty array literal [] evaluates to
+	case vtNilMap:
+		return map[string]interface{}(nil), true, kind
 	}
 	return nil, false, kind
 }
@@ -91,7 +97,7 @@ func VP_C06_truthiness() {
 	data := map[string]interface{}{"c": c, "x": px, "y": "right"}
 	r := NewRunner()
 	r.SetThis(data)
-	which := vpChoice("expr", 9)
+	which := vpChoice("expr", 10)
 	vpObserve("case", kind, which, truthy)
 	switch which {
 	case 0: // !!c
@@ -156,6 +162,18 @@ func VP_C06_truthiness() {
 		} else {
 			vpAssert("C06/nested/falsy", vpSame(v, "right"))
 		}
+	case 9: // c ? c : ($u = y): the unselected branch must not run even when the true branch repeats the condition
+		e := &ConditionalExpression{Condition: vpId("c"), QuestionTok: &TokenNode{Token: SK_Question}, ColonTok: &TokenNode{Token: SK_Colon},
+			WhenTrue: vpId("c"), WhenFalse: &ParenthesizedExpression{Expression: vpBin(SK_Equals, vpId("$u"), vpId("y"))}}
+		v, err := r.resolve(ctx, e)
+		_, uSet := data["$u"]
+		vpAssert("C06/conditional-same-ref/no-error", err == nil)
+		if truthy {
+			vpAssert("C06/conditional-same-ref/yields-condition-value", vpSameCond(v, c, kind))
+			vpAssert("C06/conditional-same-ref/only-selected-branch-evaluated", !uSet)
+		} else {
+			vpAssert("C06/conditional-same-ref/selects-false-branch", vpSame(v, "right") && uSet)
+		}
 	case 7, 8: // nested through the real parser: the conditional associates to the right
 		text := "c ? 'A' : 0 ? 'B' : 'C'"
 		wantT, wantF := "A", "C"
@@ -198,6 +216,12 @@ func vpSameCond(got, c interface{}, kind int) bool {
 	case vtFunc:
 		_, ok := got.(func() (int, error))
 		return ok
+	case vtNilSlice:
+		g, ok := got.([]interface{})
+		return ok && len(g) == 0
+	case vtNilMap:
+		g, ok := got.(map[string]interface{})
+		return ok && len(g) == 0
 	}
 	return false
 }
